@@ -215,6 +215,9 @@ class Randomizer(RandIF):
                     active_randsets.append(rs)
                     for f in rs.all_fields():
                         f.dispose()
+                    # Also release the solver handles of fields that are only 
+                    # reachable through the constraints (as on the success path)
+                    RandSetDisposeVisitor().dispose(rs)
                         
                 if self.solve_fail_debug > 0:
                     raise SolveFailure(
